@@ -14,11 +14,11 @@ CHECKS["C15"] = ("exploration", "runtime round-trip / random-access / bytes roun
 CHECKS["C14"] = ("exploration", "after-every-operation cross-accessor invariant walker against a reference model graph",
   "Random mutation histories on the real LpgStore (all mutating calls, mixed value types, index create/drop, statistics, zone-map rebuild, with/without backward adjacency, hub histories crossing the 64/256 adjacency thresholds); after every operation every accessor is compared with a plain reference model, zone-map pruning is probed for soundness, GrafeoDB::validate() must report exactly the dangling references. Held = all accessors agreed with the model at every prefix of every history run.",
   "Single-threaded, epoch 0 (no transactions): concurrency is C20's, MVCC visibility is C01's. Range finder and `<>` pruning are judged with same-kind comparison only (mixed Int/Float is C10's differential).", "DESIGN.md §4 C14")
-CHECKS["C01"] = ("exploration", "session-history cell matrix judged by a snapshot reference model (runtime oracle on every read)",
-  "Every combination of 17 write kinds x 26 read paths x 8 isolation scenarios (14 observation points) x 2 epoch regimes is executed on a fresh database through real sessions; each read is compared with the reference model's answer in the state the reader is entitled to see. Cells that fail today are listed under open findings with the exact observed outcome (hash of the wrong answer), so any change of behaviour in any cell - a new leak, or a known one moving - is a violation. Held = every cell matched the model or its recorded known outcome.",
-  "Statement-granularity interleavings on one thread; one small fixture graph; cells enumerate kinds of writes/reads, not all inputs of a kind. Real threads are C20's.", "DESIGN.md §4 C01")
+CHECKS["C01"] = ("exploration", "session-history cell matrix + random histories of serial and of overlapping sessions, every read judged at run time by a snapshot reference model (specification) and, where findings are open, by the deviation model that encodes them",
+  "Every combination of 17 write kinds x 26 read paths x 8 isolation scenarios (14 observation points) x 2 epoch regimes is executed on a fresh database through real sessions; each read is compared with the reference model's answer in the state the reader is entitled to see. Cells that fail today are listed under open findings with the exact observed outcome (hash of the wrong answer), so any change of behaviour in any cell - a new leak, or a known one moving - is a violation. Seeded random histories add compositions: (a) one session at a time, 8-37 writes of every kind on shared entities with all read paths after every step; (b) 2-4 real sessions interleaving begin / write / read / commit / rollback / drop / failed commit (10-50 steps, node+edge creation through GQL and the session API, SET/REMOVE, labels, DELETE / DETACH DELETE, SPARQL updates), 20 read paths after every step, each answer compared with the specification model and with the deviation model built from the open findings (start-epoch stamping + in-place tables, creation-only rollback, SPARQL reading only committed triples): equal to the specification = held, equal to the deviation model = known finding, anything else = violation with the history as witness. Held = every cell and every read matched.",
+  "Statement-granularity interleavings on one thread; one small fixture graph; cells enumerate kinds of writes/reads, not all inputs of a kind. The deviation model is exact only for the recorded set of open findings (if that set changes the overlapping histories are skipped with an INFO line). Real threads are C20's.", "DESIGN.md §4 C01, §10.4")
 CHECKS["C02"] = ("exploration", "before/after comparison around every transaction ending through all read paths + per-write visibility probes on random multi-write transactions; commit failure injected through a fail-point hook",
-  "The cell matrix for the endings rollback / dropped session / failed commit (txmgr.commit fail point) / successful commit x every write kind x every read path x both regimes, plus seeded random transactions of 2-7 independent mutations whose every write is probed from a later observer: nothing may survive an abort, nothing may be lost by a commit. Held = every cell and every probe agreed with the all-or-nothing model or its recorded known outcome.",
+  "The cell matrix for the endings rollback / dropped session / failed commit (txmgr.commit fail point) / successful commit x every write kind x every read path x both regimes, plus seeded random transactions of 2-7 independent mutations whose every write is probed from a later observer: nothing may survive an abort, nothing may be lost by a commit. The same overlapping-session histories as C01, weighted towards endings (rollback, dropped session, failed commit ~ 50%), check that after every ending every session's every read path equals the all-or-nothing specification or exactly what the open finding C02-R1 predicts. Held = every cell, probe and read agreed with the all-or-nothing model or its recorded known outcome.",
   "Same fixture and granularity as C01; the failed commit is injected (query operators never register writes, so no natural conflict can occur).", "DESIGN.md §4 C02")
 CHECKS["C05"] = ("exploration", "reopen histories on a real on-disk database compared with a persistent reference model; deviation rules replay the engine's log from hook-reported record/rotation events",
   "Random histories of every mutating API call and mutating session statements, interleaved with checkpoints, explicit and size-triggered rotations, syncs and 1-4 close/reopen cycles under all four durability modes; after every reopen the full dump (ids, labels, endpoints, bit-exact values) is compared with the model and fresh ids are checked for collisions. Known data-loss defects are expressed as named rules on a simulated log; an observation must equal the specification or exactly what the open rules predict.",
